@@ -51,7 +51,7 @@ type Msg struct {
 	N    int    `json:"n,omitempty"`
 	Z    bool   `json:"z,omitempty"` // compressed flag on the wire
 	Seed uint64 `json:"s,omitempty"`
-	Kind string `json:"k,omitempty"` // "" random bytes, "t" text, "0" zeros
+	Kind string `json:"k,omitempty"` // "" random bytes, "t" text, "0" zeros, "r" a repeated 61-byte pattern
 	Lvl  int    `json:"l,omitempty"` // compression level selector of the generator's encoder
 	// Var selects a legal variant of the container. gzip: "2"/"3" members (RFC 1952 concatenation, each
 	// member at its own level), "e" an additional empty last member, "h" FEXTRA/FNAME/FCOMMENT fields in
@@ -299,6 +299,12 @@ func (m Msg) plain() []byte {
 		return kit.Text(m.Seed, m.N)
 	case "0":
 		return make([]byte, max(m.N, 0))
+	case "r": // a 61-byte pattern over and over: compresses to next to nothing, yet every offset is checkable
+		pat := kit.Text(m.Seed, 61)
+		out := make([]byte, max(m.N, 0))
+		for i := 0; i < len(out); i += copy(out[i:], pat) {
+		}
+		return out
 	}
 	return kit.Bytes(m.Seed, m.N)
 }
@@ -1118,6 +1124,12 @@ func dirClasses(c Case, name string, d Dir, add func(string)) (nontrivial bool) 
 		if len(w.plain) > 65536 {
 			add("message-over-64k")
 		}
+		if len(w.plain) >= 1<<20 {
+			add("decoded-message-of-1MiB-or-more")
+		}
+		if len(w.plain) > 4<<20 {
+			add("decoded-message-over-4MiB")
+		}
 	}
 	inPrefix, inPayload, atBoundary := b.cutKinds()
 	if inPrefix {
@@ -1233,8 +1245,28 @@ var contentTypes = []string{
 	"application/json", "text/plain", "", "application/grpc-web", "application/grpc-web+proto", "application/grpcx",
 }
 
-func genMsg(t *rapid.T, i int) Msg {
+// hugeSizes: decoded sizes on and around the limits an implementation might be tempted to put on
+// what one compressed message expands to (1, 2, 4, 8, 16 MiB).
+var hugeSizes = []int{1 << 20, 1<<20 + 1, 2 << 20, 2<<20 + 1, 4<<20 - 1, 4 << 20, 4<<20 + 1, 5 << 20, 8 << 20, 8<<20 + 1, 16 << 20, 16<<20 + 1}
+
+func genMsg(t *rapid.T, i int, enc string) Msg {
 	var m Msg
+	// now and then a message that is tiny on the wire and huge once decoded
+	if compresses(enc) && rapid.IntRange(0, 499).Draw(t, "huge") == 0 {
+		if rapid.IntRange(0, 2).Draw(t, "huge_exact") > 0 {
+			m.N = rapid.SampledFrom(hugeSizes).Draw(t, "n")
+		} else {
+			m.N = rapid.IntRange(1<<20, 9<<20).Draw(t, "n")
+		}
+		m.Z = true
+		m.Seed = uint64(rapid.IntRange(1, 1000).Draw(t, "seed"))
+		m.Kind = rapid.SampledFrom([]string{"0", "r"}).Draw(t, "kind")
+		m.Lvl = rapid.IntRange(0, 1).Draw(t, "lvl")
+		if enc == "deflate" && rapid.Bool().Draw(t, "zlib") {
+			m.Var = "zlib"
+		}
+		return m
+	}
 	switch rapid.IntRange(0, 19).Draw(t, "sizeclass") {
 	case 0, 1, 2, 3:
 		m.N = 0
@@ -1263,7 +1295,7 @@ func genDir(t *rapid.T, label string) Dir {
 	d.Enc = rapid.SampledFrom([]string{"", "identity", "gzip", "gzip", "deflate", "deflate", "snappy", "snappy"}).Draw(t, label+"_enc")
 	n := rapid.SampledFrom([]int{0, 1, 1, 1, 2, 2, 3, 4, 5, 6}).Draw(t, label+"_nmsgs")
 	for i := 0; i < n; i++ {
-		d.Msgs = append(d.Msgs, genMsg(t, i))
+		d.Msgs = append(d.Msgs, genMsg(t, i, d.Enc))
 	}
 	d.End = rapid.SampledFrom([]string{"last", "separate", "absent", "trailers"}).Draw(t, label+"_end")
 	b := build(d) // deterministic in d: only used to place cuts where they matter
@@ -1363,7 +1395,7 @@ func genCase(t *rapid.T) Case {
 	return c
 }
 
-const ruleGen = "rapid draws per direction an encoding (absent/identity/gzip/deflate/snappy), 0..6 messages (sizes 0..70000, edge-biased; compressed flag; random/text/zero payloads; compressed by compress/gzip (1..3 members, optional empty last member, optional FEXTRA/FNAME/FCOMMENT), compress/flate at 4 levels or compress/zlib (the RFC 1950 wrapper grpc-core uses for deflate), snappy framing writer), a cut set of the length-prefixed byte stream (none, message boundaries, inside 5-byte prefixes, fixed frame size, random offsets, every byte), optional empty DATA frames, END_STREAM on the last DATA frame / a separate empty frame / trailers / absent; content-type application/grpc (mostly), +proto/+json, or non-gRPC; 1 in 8 gRPC requests is answered by a non-gRPC response (text/html etc., plain or framing-like body); in 3 of 4 cases extra regular header fields (grpc-accept-encoding, grpc-timeout, user-agent) and a drawn permutation of all regular fields (grpc-encoding before or after content-type); both directions interleaved, sequential or on two goroutines; processors on both or one direction, forwarding the slice they were given or (1 in 3) a copy of it; 1 in 4 responses is preceded by one or two 1xx HEADERS (100, 103). Non-trivial = gRPC stream with a cut inside a 5-byte prefix or inside a payload, or a compressed message, or a separate END_STREAM frame."
+const ruleGen = "rapid draws per direction an encoding (absent/identity/gzip/deflate/snappy), 0..6 messages (sizes 0..70000, edge-biased; 1 compressed message in 500 expands to 1..16 MiB - zeros or a repeated pattern, a few KiB on the wire; compressed flag; random/text/zero payloads; compressed by compress/gzip (1..3 members, optional empty last member, optional FEXTRA/FNAME/FCOMMENT), compress/flate at 4 levels or compress/zlib (the RFC 1950 wrapper grpc-core uses for deflate), snappy framing writer), a cut set of the length-prefixed byte stream (none, message boundaries, inside 5-byte prefixes, fixed frame size, random offsets, every byte), optional empty DATA frames, END_STREAM on the last DATA frame / a separate empty frame / trailers / absent; content-type application/grpc (mostly), +proto/+json, or non-gRPC; 1 in 8 gRPC requests is answered by a non-gRPC response (text/html etc., plain or framing-like body); in 3 of 4 cases extra regular header fields (grpc-accept-encoding, grpc-timeout, user-agent) and a drawn permutation of all regular fields (grpc-encoding before or after content-type); both directions interleaved, sequential or on two goroutines; processors on both or one direction, forwarding the slice they were given or (1 in 3) a copy of it; 1 in 4 responses is preceded by one or two 1xx HEADERS (100, 103). Non-trivial = gRPC stream with a cut inside a 5-byte prefix or inside a payload, or a compressed message, or a separate END_STREAM frame."
 
 var propReframe = &kit.Prop[Case]{
 	ID: "C11", Name: "reframe", Rule: ruleGen,
@@ -1519,6 +1551,20 @@ func enumVariants(yield func(Case) bool) {
 		vs = append(vs, ev{"gzip", v})
 	}
 	vs = append(vs, ev{"deflate", ""}, ev{"deflate", "zlib"}, ev{"snappy", ""})
+	// a few KiB on the wire, megabytes once decoded: sizes on and around plausible decode limits
+	for _, x := range []ev{{"gzip", ""}, {"gzip", "2"}, {"deflate", ""}, {"deflate", "zlib"}, {"snappy", ""}} {
+		for k, n := range []int{1 << 20, 1<<20 + 1, 4<<20 - 1, 4 << 20, 4<<20 + 1, 16 << 20, 16<<20 + 1} {
+			kind := []string{"0", "r"}[k%2]
+			m := []Msg{{N: 3, Seed: 1}, {N: n, Z: true, Seed: uint64(k + 1), Kind: kind, Var: x.v}}
+			c := Case{CT: "application/grpc", C: Dir{Enc: x.enc, Msgs: m, Cuts: []int{9, 500}, End: "last"}, S: Dir{End: "trailers"}}
+			if k%2 == 1 {
+				c.C, c.S = Dir{End: "last"}, Dir{Enc: x.enc, Msgs: m, Cuts: []int{2}, End: "trailers"}
+			}
+			if !yield(c) {
+				return
+			}
+		}
+	}
 	for _, x := range vs {
 		for _, n := range []int{0, 1, 2, 3, 10, 1000, 70000} {
 			for lvl := 0; lvl < 4; lvl++ {
@@ -1536,7 +1582,7 @@ func enumVariants(yield func(Case) bool) {
 
 var propVariants = &kit.Prop[Case]{
 	ID: "C11", Name: "container-variants",
-	Rule: "exhaustive over a fixed matrix: compressed message in every container variant the generator knows (gzip with 1, 2 or 3 members, with and without an empty last member, with FEXTRA/FNAME/FCOMMENT; raw and zlib-wrapped deflate; snappy framing) x payload sizes 0,1,2,3,10,1000,70000 x 4 compression levels, in both directions (336 cases). Non-trivial as for reframe.",
+	Rule: "exhaustive over a fixed matrix: compressed message in every container variant the generator knows (gzip with 1, 2 or 3 members, with and without an empty last member, with FEXTRA/FNAME/FCOMMENT; raw and zlib-wrapped deflate; snappy framing) x payload sizes 0,1,2,3,10,1000,70000 x 4 compression levels, in both directions (336 cases); plus highly compressible messages (zeros, a repeated 61-byte pattern) of 1 MiB, 1 MiB+1, 4 MiB-1, 4 MiB, 4 MiB+1, 16 MiB, 16 MiB+1 decoded size under gzip (1 and 2 members), raw and zlib deflate, snappy (35 cases). Non-trivial as for reframe.",
 	Run:  runCase, NonTrivial: nontrivial, Classes: classes,
 }
 
